@@ -302,7 +302,7 @@ def main(argv=None):
     status = 0
     if new_viol:
         status = 1
-    elif errors or inconclusive or missing_witness or nonrepro or total.unknown:
+    elif errors or inconclusive or missing_witness or nonrepro or total.unknown or disagreements:
         status = 2
 
     for hid, (e, jn, lab) in sorted(known_hits.items()):
